@@ -62,10 +62,11 @@ CHK = ["--signed-overflow-check", "--div-by-zero-check", "--bounds-check", "--po
 
 def jobs(tier, gen_dir):
     out = []
+    TO = 300 if tier == "quick" else 1800  # the thorough tier runs every num_subsets in 1..96; some prime values need more than 300 s under load
 
     def enforce(k, repl=(), lc=False, **kw):
         out.append(Job("c06/" + k + kw.pop("suffix", ""), HARNESS, "h_" + k, enforce=k, replace=list(repl), loop_contracts=lc, kernels=[k],
-                       flags=CHK, no_base_flags=True, min_obligations=3, timeout=kw.pop("timeout", 300), object_bits=10, backend=kw.pop("backend", "kissat"), **kw))
+                       flags=CHK, no_base_flags=True, min_obligations=3, timeout=kw.pop("timeout", TO), object_bits=10, backend=kw.pop("backend", "kissat"), **kw))
 
     enforce("K_find_basic_vs")
     enforce("K_num_related")
@@ -78,7 +79,7 @@ def jobs(tier, gen_dir):
     for S in subsets:
         enforce("K_get_subset_num", repl=["K_randomly_permute_subset_order"], suffix="/S=%d" % S, defines={"C06_S": S}, params={"num_subsets": S})
         out.append(Job("c06/lemma_schedule/S=%d" % S, HARNESS, "h_lemma_schedule", kind="lemma", kernels=["K_get_subset_num"], flags=CHK,
-                       no_base_flags=True, min_obligations=1, timeout=300, object_bits=10, replace=["K_get_subset_num"],
+                       no_base_flags=True, min_obligations=1, timeout=TO, object_bits=10, replace=["K_get_subset_num"],
                        defines={"C06_S": S}, params={"num_subsets": S}, backend="kissat"))
     for lem in ("idempotent", "complete", "related_count", "subset_unique"):
         out.append(Job("c06/lemma_" + lem, HARNESS, "h_lemma_" + lem, kind="lemma", kernels=[], flags=CHK, no_base_flags=True,
